@@ -36,7 +36,7 @@ else
   fi
   ROOT="$ISO/verif"
   (cd "$SRC" && tar cf - --exclude=./target --exclude=./.git --exclude=./evidence --exclude=./replays .) | (cd "$ROOT" && tar xf -)
-  sed -i "s#/repo/source#$REPO/source#g" "$ROOT/harness/pcheck/Cargo.toml"
+  sed -i "s#/repo/source#$REPO/source#g" "$ROOT"/harness/*/Cargo.toml
   sed -i "s#target-dir = .*#target-dir = \"$ISO/target\"#" "$ROOT/harness/.cargo/config.toml"
   if [ ! -d "$ISO/target" ] && [ -d /verif/target/release ]; then mkdir -p "$ISO/target"; cp -a /verif/target/release "$ISO/target/" 2>/dev/null; fi
   export VERIF_ROOT="$ROOT" CARGO_NET_OFFLINE=true
